@@ -113,6 +113,10 @@ func accExec(calls []accCall) (float64, string) {
 }
 
 func accReplay(b *accBeh, rng *rand.Rand) string {
+	return run.Guard(func() string { return accReplay0(b, rng) })
+}
+
+func accReplay0(b *accBeh, rng *rand.Rand) string {
 	calls := make([]accCall, len(b.P))
 	for i, raw := range b.P {
 		c, err := parseAccCall(raw)
@@ -121,7 +125,6 @@ func accReplay(b *accBeh, rng *rand.Rand) string {
 		}
 		calls[i] = c
 	}
-	defer func() { recover() }()
 	got, d := accExec(calls)
 	if d != "" {
 		return d
@@ -293,7 +296,12 @@ func init() {
 				if h == 2 && cut == cs.N {
 					continue
 				}
-				got, d := accExec(calls)
+				var got float64
+				d := run.Guard(func() string {
+					var dd string
+					got, dd = accExec(calls)
+					return dd
+				})
 				if d == "" && got != want[h] {
 					d = fmt.Sprintf("Result is %v, specification %v", got, want[h])
 				}
